@@ -1,6 +1,7 @@
 import MimicProofs.Auth
 import MimicProofs.ConnLife
 import MimicProofs.Script
+import MimicProofs.ChangeUser
 /-!
 # C01 — No command is served on a connection that has not authenticated
 
@@ -140,5 +141,54 @@ theorem failed_change_user_closes (s : S) (dep : Bool) (cmd : Cmd) (hcmd : cmd =
 
 /-- non-vacuity: a state satisfying the hypotheses of `failed_change_user_closes` -/
 example : ({ phase := .idle, initDone := true } : S).phase = .idle ∧ ({ phase := .idle, initDone := true } : S).lost = false := ⟨rfl, rfl⟩
+
+/-! ### on the translated code: `handle_change_user` inside the generated command loop
+
+`Connection.handle_change_user` is read from `/repo` on every run (`pytrans3.translate_change_user`); `_change_user` — packet
+parsing, session variables and the authentication exchange, whose decision logic is this file's model above — is the parameter
+`cu` with its three outcomes (returned / `AuthenticationFailed` / any other exception). -/
+section code
+open Mimic.Extracted.HandlersCode MimicProofs.ChangeUser
+variable {S : Type} [DecidableEq S]
+
+/-- **A failed COM_CHANGE_USER ends the command phase, once, and nothing sent after it is executed or answered.**  For every
+    conversation `pre ++ [COM_CHANGE_USER] ++ post` whose command phase is still running after `pre`: if `_change_user` does not
+    return — the exchange refused the credentials, the packet was malformed, the identity provider raised, anything — the loop
+    returns there; the state and the wire are those of that single iteration (the exchange's own ERR, or exactly one ERR written
+    by `handle_change_user`, then the sequence reset), and they do not depend on `post`: no handler runs for any later packet and
+    no packet answers it. -/
+theorem code_nothing_after_failed_change_user (E : Mimic.Py.Env S) (cp : S → Nat) (pc : Nat → Mimic.Py.Bytes) (coldef : Nat → Nat → Mimic.Py.Bytes)
+    (parse : Connection S → Mimic.Py.Bytes → Option (ComStmtExecute S)) (app : S → Option (ResultSet S))
+    (ur : S → Bool) (fls : Mimic.Extracted.ParsersCode.ComFieldList S → S) (fcd : Nat → S → Mimic.Py.Bytes → Mimic.Py.Bytes)
+    (err : Connection S → Mimic.Py.Bytes) (cu : Connection S → Mimic.Py.Bytes → CUOut S) (cerr : Connection S → Mimic.Py.Bytes)
+    (c : Connection S) (pre post : List Mimic.Py.Bytes) (payload : Mimic.Py.Bytes)
+    (hpre : (loopCU E cp pc coldef parse app ur fls fcd err cu cerr c pre).2 = false)
+    (hfail : ∀ s, cu { (loopCU E cp pc coldef parse app ur fls fcd err cu cerr c pre).1 with _executing := true } payload ≠ .returned s) :
+    loopCU E cp pc coldef parse app ur fls fcd err cu cerr c (pre ++ (17 :: payload) :: post)
+      = ((stepCU E cp pc coldef parse app ur fls fcd err cu cerr (loopCU E cp pc coldef parse app ur fls fcd err cu cerr c pre).1 (17 :: payload)).1, true) :=
+  nothing_after_failed_change_user E cp pc coldef parse app ur fls fcd err cu cerr c pre post payload hpre hfail
+
+/-- what that one iteration is, in each of the three outcomes of `_change_user` -/
+theorem code_change_user_exchange (E : Mimic.Py.Env S) (cp : S → Nat) (pc : Nat → Mimic.Py.Bytes) (coldef : Nat → Nat → Mimic.Py.Bytes)
+    (parse : Connection S → Mimic.Py.Bytes → Option (ComStmtExecute S)) (app : S → Option (ResultSet S))
+    (ur : S → Bool) (fls : Mimic.Extracted.ParsersCode.ComFieldList S → S) (fcd : Nat → S → Mimic.Py.Bytes → Mimic.Py.Bytes)
+    (err : Connection S → Mimic.Py.Bytes) (cu : Connection S → Mimic.Py.Bytes → CUOut S) (cerr : Connection S → Mimic.Py.Bytes)
+    (c : Connection S) (payload : Mimic.Py.Bytes) :
+    let c1 : Connection S := { c with _executing := true }
+    match cu c1 payload with
+    | .returned s => stepCU E cp pc coldef parse app ur fls fcd err cu cerr c (17 :: payload)
+        = ({ s with _executing := false, out := s.out ++ [Ev.session_reset, Ev.reset_seq] }, true)
+    | .authfail s => stepCU E cp pc coldef parse app ur fls fcd err cu cerr c (17 :: payload)
+        = ({ s with _executing := false, out := s.out ++ [Ev.reset_seq] }, false)
+    | .raised s => stepCU E cp pc coldef parse app ur fls fcd err cu cerr c (17 :: payload)
+        = ({ s with _executing := false, out := s.out ++ [Ev.write (cerr s) true, Ev.reset_seq] }, false) :=
+  change_user_exchange E cp pc coldef parse app ur fls fcd err cu cerr c payload
+
+/-- non-vacuity: a `_change_user` that refuses everything; the conversation PING, CHANGE_USER, PING ends at the second packet -/
+example : (loopCU (S := Unit) ⟨fun _ => none, fun _ _ => some (), fun _ _ => none, (), fun _ => true, fun _ => (), fun _ _ => false⟩ (fun _ => 0) (fun _ => []) (fun _ _ => []) (fun _ _ => none) (fun _ => none)
+      (fun _ => false) (fun _ => ()) (fun _ _ _ => []) (fun _ => [0xff]) (fun c _ => .authfail c) (fun _ => [0xff])
+      ⟨0, 0, [], [], ⟨some maxPreparedStmtId, 0⟩, 45, 45, false⟩ [[14], [17], [14]]).2 = true := by decide
+
+end code
 
 end MimicProps.C01
